@@ -174,7 +174,7 @@ impl C16 {
 
 impl Monitor for C16 {
     fn total_cases(&self) -> u64 {
-        self.tier.pick(600_000, 20_000_000)
+        self.tier.pick(1_800_000, 30_000_000)
     }
 
     fn run_case(&mut self, k: u64, rng: &mut Rng, col: &mut Collector) {
